@@ -105,27 +105,33 @@ pub fn base_from_history(h: History, scratch: &Scratch) -> Result<Base, String> 
         hp.txs.pop();
         crate::c06::replay_model(&hp, &mut s_prev);
     }
-    // which slot holds the newest header?  Asked of the code under test itself, so that the check does
-    // not depend on the checksum algorithm: zero each slot in turn and see which state is shown.
+    let newest_slot = probe_newest_slot(&image, &h, commits, &s_prev, &s_new, scratch)?;
+    Ok(Base { history: h, image, newest_slot, s_new, s_prev, ps })
+}
+
+/// which slot holds the newest header?  Asked of the code under test itself, so that the check does
+/// not depend on the checksum algorithm: zero each slot in turn and see which state is shown.
+fn probe_newest_slot(image: &[u8], h: &History, commits: usize, s_prev: &MBucket, s_new: &MBucket, scratch: &Scratch) -> Result<u64, String> {
+    let ps = h.pagesize;
     let mut newest_slot = None;
     if commits == 0 {
         newest_slot = Some(1);
     } else {
         for s in 0..2u64 {
-            let mut img = image.clone();
+            let mut img = image.to_vec();
             for b in img[(s * ps) as usize..((s + 1) * ps) as usize].iter_mut() {
                 *b = 0;
             }
             let p2 = scratch.fresh("probe");
             std::fs::write(&p2, &img).map_err(|e| e.to_string())?;
             let shown = util::catch(|| -> Option<MBucket> {
-                let db = exec::open_db(&p2, &h).ok()?;
+                let db = exec::open_db(&p2, h).ok()?;
                 let tx = db.tx(false).ok()?;
                 exec::dump_tx(&tx).ok()
             });
             let _ = std::fs::remove_file(&p2);
             if let Ok(Some(st)) = shown {
-                if st.diff(&s_prev, false).is_none() && st.diff(&s_new, false).is_some() {
+                if st.diff(s_prev, false).is_none() && st.diff(s_new, false).is_some() {
                     newest_slot = Some(s);
                 }
             }
@@ -136,11 +142,82 @@ pub fn base_from_history(h: History, scratch: &Scratch) -> Result<Base, String> 
         None => {
             // zeroing either header does not bring back the previous commit: fall back to the parser's view;
             // the mutation sweep below will report what is wrong
-            let (m, _) = fileck::choose_meta(&image, ps);
+            let (m, _) = fileck::choose_meta(image, ps);
             m.map(|m| m.slot).unwrap_or(commits as u64 % 2 ^ 1)
         }
     };
-    Ok(Base { history: h, image, newest_slot, s_new, s_prev, ps })
+    Ok(newest_slot)
+}
+
+/// A base whose headers the code under test did not (all) write itself: `start` is a file image with known
+/// contents `start_state` (a file of the pinned release, or one with legacy-format headers); `extra` further
+/// marker commits are made on it by the current code.  Returns None when the image cannot be used.
+pub fn foreign_base(start: &[u8], start_state: &MBucket, ps: u64, extra: usize, scratch: &Scratch) -> Result<Base, String> {
+    let path = scratch.fresh("foreign");
+    std::fs::write(&path, start).map_err(|e| e.to_string())?;
+    let h = History { pagesize: ps, num_pages: 8, strict: false, populate: false, txs: vec![], origin: "foreign".into() };
+    let cfg = ExecCfg::default();
+    let mut run = exec::Run::new(&cfg, ps);
+    let mut model = start_state.clone();
+    let mut prev = start_state.clone();
+    let r = util::catch(|| -> Result<(), String> {
+        let db = exec::open_db(&path, &h).map_err(|e| e.to_string())?;
+        for i in 0..extra {
+            prev = model.clone();
+            let t = TxScript {
+                ops: vec![Op::TxGetOrCreate { k: K::lit(b"c12-marker"), how: How::Slice }, Op::Put { h: 0, k: K::lit(b"commit"), v: V { tag: 5000 + i as u64, len: 9 }, how: How::Slice, vhow: How::Slice }],
+                end: End::Commit,
+                reopen: false,
+            };
+            exec::exec_tx(&mut run, &db, &path, &t, i, &mut model);
+            if run.out.aborted {
+                return Err(crate::report::workload_failure(run.out.violations.first(), "a further commit on the foreign base was cut short"));
+            }
+        }
+        Ok(())
+    });
+    let image = std::fs::read(&path).map_err(|e| e.to_string());
+    let _ = std::fs::remove_file(&path);
+    match r {
+        Ok(Ok(())) => {}
+        Ok(Err(e)) => return Err(e),
+        Err(p) => return Err(format!("{}{}|a further commit on the foreign base panicked at {}:{}: {}", crate::report::WORKLOAD_FAILED, util::panic_signature(&p), p.file, p.line, p.msg)),
+    }
+    let image = image?;
+    // (with no further commit the two headers of the start image describe states this check does not know
+    // apart from the newest one; only `extra >= 1` gives a known previous state)
+    let newest_slot = probe_newest_slot(&image, &h, extra, &prev, &model, scratch)?;
+    Ok(Base { history: h, image, newest_slot, s_new: model, s_prev: prev, ps })
+}
+
+/// How a base with foreign headers is made (kept in the replay file).
+#[derive(Serialize, Deserialize, Debug, Clone)]
+pub struct ForeignSpec {
+    /// a file under the golden directory (written by the pinned release), or empty
+    pub golden: String,
+    /// a history the current code executes first (when `golden` is empty)
+    pub history: Option<History>,
+    /// both headers of the start image are re-encoded in the legacy (SHA3) format
+    pub legacy: bool,
+    /// further commits by the current code on the start image
+    pub extra: usize,
+}
+
+pub fn build_foreign(spec: &ForeignSpec, ctx: &Ctx, scratch: &Scratch) -> Result<Base, String> {
+    if let Some(h) = &spec.history {
+        let b = base_from_history(h.clone(), scratch)?;
+        let img = if spec.legacy { crate::c15::to_legacy(&b.image, b.ps) } else { b.image.clone() };
+        if spec.extra == 0 {
+            return Ok(Base { image: img, ..b });
+        }
+        return foreign_base(&img, &b.s_new, b.ps, spec.extra, scratch);
+    }
+    let dir = std::path::PathBuf::from(ctx.get("golden").unwrap_or("/verif/out/golden"));
+    let bytes = std::fs::read(dir.join(&spec.golden)).map_err(|e| format!("golden file {}: {}", spec.golden, e))?;
+    let doc: serde_json::Value = std::fs::read(dir.join("golden-1024.manifest.json")).ok().and_then(|b| serde_json::from_slice(&b).ok()).ok_or("golden manifest missing")?;
+    let state = crate::c15::manifest_bucket(&doc["contents"]);
+    let img = if spec.legacy { crate::c15::to_legacy(&bytes, 1024) } else { bytes };
+    foreign_base(&img, &state, 1024, spec.extra.max(1), scratch)
 }
 
 fn shift_handles(op: &mut Op) {
@@ -225,6 +302,10 @@ fn judge_inner(base: &Base, m: &Mutation, path: &std::path::Path, extra_commit: 
             exec::dump_tx(&tx)?
         };
         let mut after: Option<String> = None;
+        // the state the database fell back to must be sound as a whole (tree AND free list), not only readable
+        if let Err(e) = db.check() {
+            after = Some(format!("DB::check right after opening the damaged file: {}", e));
+        }
         if extra_commit {
             // the database must keep working after the fallback
             let tx = db.tx(true).map_err(|e| format!("{}", e))?;
@@ -301,7 +382,9 @@ pub fn run(ctx: &Ctx) -> Shard {
         let m: Mutation = serde_json::from_value(doc["case"]["mutation"].clone()).expect("mutation");
         let ps = doc["case"]["pagesize"].as_u64().unwrap_or(1024);
         let seed = doc["case"]["base_seed"].as_u64().unwrap_or(ctx.seed);
-        let base = if doc["case"]["kind"] == "c12-small" {
+        let base = if doc["case"]["kind"] == "c12-foreign" {
+            build_foreign(&serde_json::from_value(doc["case"]["spec"].clone()).expect("spec"), ctx, &scratch).expect("base")
+        } else if doc["case"]["kind"] == "c12-small" {
             base_from_history(serde_json::from_value(doc["case"]["history"].clone()).expect("history"), &scratch).expect("base")
         } else {
             make_base(ps, m.commits, seed, &scratch).expect("base")
@@ -418,6 +501,17 @@ pub fn run(ctx: &Ctx) -> Shard {
             small.push((format!("{} commits then a write transaction that changes nothing ({})", commits, what), History { pagesize: 1024, num_pages: 8, strict: false, populate: false, txs, origin: "noop-last".into() }));
         }
     }
+    // a free list of several pages (a 200-page bucket deleted) followed by small commits: falling back to the
+    // previous header also means loading the PREVIOUS free list, which must still be intact
+    for extra_small in 1..=3usize {
+        if let Some(mut h) = crate::shape::big_freelist_history(1024, 0) {
+            h.txs.truncate(2 + extra_small);
+            for t in h.txs.iter_mut() {
+                t.reopen = false;
+            }
+            small.push((format!("multi-page free list, {} small commit(s) after the big deletion", extra_small), h));
+        }
+    }
     for (label, h) in small {
         let base = match base_from_history(h, &scratch) {
             Ok(b) => b,
@@ -445,13 +539,69 @@ pub fn run(ctx: &Ctx) -> Shard {
                     continue;
                 }
                 shard.evaluations += 1;
-                match judge(&base, &m, &path, idx % 4 == 0) {
+                match judge(&base, &m, &path, idx % 2 == 0) {
                     Verdict::Ok(kind) => {
                         shard.count(&format!("outcome:{}", kind), 1);
                         shard.count("mutations_on_small_and_noop_base_files", 1);
                     }
                     Verdict::Bad(sig, detail) => {
                         let replay = serde_json::json!({"kind": "c12-small", "label": label, "mutation": m, "history": base.history});
+                        shard.violation(ctx, &sig, &format!("[{}] {}", label, detail), &replay);
+                    }
+                }
+            }
+        }
+    }
+    // bases whose headers the current code did not (all) write: legacy-format header pairs, a legacy header next to
+    // a current one (the first commit by the current code on an old file), files of the pinned release with one or
+    // two further commits.  Damage to either header must fall back to the other, whoever wrote it.
+    let mut specs: Vec<(String, ForeignSpec)> = Vec::new();
+    let marker_history = |np: usize, commits: u64| {
+        let txs: Vec<TxScript> = (0..commits).map(|i| TxScript { ops: vec![Op::TxGetOrCreate { k: K::lit(b"marker"), how: How::Slice }, put(i)], end: End::Commit, reopen: false }).collect();
+        History { pagesize: 1024, num_pages: np, strict: false, populate: false, txs, origin: "small".into() }
+    };
+    for commits in 1..=4u64 {
+        specs.push((format!("both headers in the legacy format, {} commits", commits), ForeignSpec { golden: String::new(), history: Some(marker_history(8, commits)), legacy: true, extra: 0 }));
+        specs.push((format!("legacy-format file with {} commits, then one commit by the current code", commits), ForeignSpec { golden: String::new(), history: Some(marker_history(8, commits)), legacy: true, extra: 1 }));
+    }
+    for extra in 1..=2usize {
+        specs.push((format!("file of the pinned release, {} further commit(s)", extra), ForeignSpec { golden: "golden-1024.db".into(), history: None, legacy: false, extra }));
+        specs.push((format!("file of the pinned release with legacy-format headers, {} further commit(s)", extra), ForeignSpec { golden: "golden-1024.db".into(), history: None, legacy: true, extra }));
+    }
+    for (label, spec) in specs {
+        let base = match build_foreign(&spec, ctx, &scratch) {
+            Ok(b) => b,
+            Err(e) => {
+                shard.inconclusive_or_workload(ctx, &format!("[{}]", label), &e, &serde_json::json!({"kind": "c12-foreign-base", "label": label, "spec": spec}));
+                continue;
+            }
+        };
+        shard.count("base_files_with_headers_the_current_code_did_not_write", 1);
+        prepare(&base, &path);
+        let commits = spec.extra;
+        for slot in 0..2u64 {
+            let mut muts: Vec<Mutation> = Vec::new();
+            muts.push(Mutation { commits, slot, bytes: (0..1024usize).map(|o| (o, 0u8)).collect(), what: "page-zeroed".into() });
+            muts.push(Mutation { commits, slot, bytes: (0..512usize).map(|o| (o, 0u8)).collect(), what: "first-sector-zeroed".into() });
+            for off in [32usize, 36, 40, 48, 56, 64, 72, 80, 88, 95, 96, 103, 104, 127] {
+                let orig = base.image[(slot * 1024) as usize + off];
+                for v in [orig ^ 0xff, orig.wrapping_add(1)] {
+                    muts.push(Mutation { commits, slot, bytes: vec![(off, v)], what: "single byte".into() });
+                }
+            }
+            for m in muts {
+                idx += 1;
+                if idx % ctx.nshards != ctx.shard {
+                    continue;
+                }
+                shard.evaluations += 1;
+                match judge(&base, &m, &path, idx % 2 == 0) {
+                    Verdict::Ok(kind) => {
+                        shard.count(&format!("outcome:{}", kind), 1);
+                        shard.count("mutations_on_base_files_with_foreign_headers", 1);
+                    }
+                    Verdict::Bad(sig, detail) => {
+                        let replay = serde_json::json!({"kind": "c12-foreign", "label": label, "mutation": m, "spec": spec});
                         shard.violation(ctx, &sig, &format!("[{}] {}", label, detail), &replay);
                     }
                 }
